@@ -210,6 +210,21 @@ func (r RelResult) Set() map[model.Pair]bool {
 	return m
 }
 
+// DupPairs returns the pairs that were returned more than once.
+func (r RelResult) DupPairs() []model.Pair {
+	seen := map[model.Pair]int{}
+	for _, p := range r.Pairs {
+		seen[p]++
+	}
+	var d []model.Pair
+	for p, n := range seen {
+		if n > 1 {
+			d = append(d, p)
+		}
+	}
+	return d
+}
+
 func (r RelResult) Dups() []string {
 	seen := map[model.Pair]int{}
 	for _, p := range r.Pairs {
